@@ -88,7 +88,7 @@ Proof.
   induction l as [|[g n] t IH]; intros prev prev' seen Hp HF; [reflexivity|].
   inversion HF as [|? ? Hn Ht]; subst. cbn [snd] in Hn. cbn [canon_lines].
   destruct (is_cmt n) eqn:En.
-  - cbn [lines_ok]. unfold ccmt at 1 2 3. cbn [is_cmt craw]. rewrite cmt_canon_ccmt, is_line_sci. cbn [andb].
+  - cbn [lines_ok]. unfold ccmt at 1 2 3. cbn [is_cmt craw]. rewrite cmt_canon_ccmt. cbn [andb].
     apply andb_true_intro. split.
     + destruct prev as [p|], prev' as [p'|]; cbn [prev_rel] in Hp; try contradiction.
       * rewrite Hp.
@@ -126,7 +126,7 @@ Definition canon_elem (cc : cnode -> cnode) (nb : bool) (ind : nat) (g : str) (n
     let inline_ok := match prev with
                      | Some p => (if nb then is_bind p else true) && negb (has_nl g) && seen
                      | None => false end in
-    ((if inline_ok then [" "] else cgap g (if is_line_cmt (craw n) then ind else 0)), ccmt (craw n))
+    ((if inline_ok then [" "] else cgap g (ind)), ccmt (craw n))
   else (cgap g ind, cc n).
 Lemma canon_lines_cons cc nb ind g n rest prev seen :
   canon_lines cc nb ind ((g, n) :: rest) prev seen =
